@@ -48,6 +48,9 @@ package capnp
 //@   -- double-far pointer: the pad's first word is a far pointer to the object's segment and address,
 //@   -- its second word the object's pointer with offset zero; the word now stored in the slot is a
 //@   -- double-far pointer naming the pad
+//@   -- (the address designated by the pad's first word, checked right after that word is written:
+//@   -- the same statement as dfpadaddr below with one write fewer in between)
+//@   assert before "padSeg.writeRawPointer(padAddr.addSizeUnchecked(wordSize), srcRaw)" dfpadaddr1: implies(srcAddr&7 == 0 && padAddr&7 == 0, address(sFarPadWords(rawPointer(LE64(padSeg.data, int(padAddr)))))<<3 == srcAddr)
 //@   assert before "s.writeRawPointer(off, rawDoubleFarPointer(padSeg.id, padAddr))" dfalign: padAddr&7 == 0 && M(padAddr)+16 <= M(len(padSeg.data))
 //@   assert before "s.writeRawPointer(off, rawDoubleFarPointer(padSeg.id, padAddr))" dftag: rawPointer(LE64(padSeg.data, int(padAddr)+8)) == srcRaw && sOff(srcRaw) == 0
 //@   assert before "s.writeRawPointer(off, rawDoubleFarPointer(padSeg.id, padAddr))" dfpad: sKind(rawPointer(LE64(padSeg.data, int(padAddr)))) == 2 && !sFarDouble(rawPointer(LE64(padSeg.data, int(padAddr)))) &&
